@@ -100,6 +100,46 @@ def report_event(ctx, seen, ev, info, clause, tlc=None):
     report(ctx, seen, sig, d)
 
 
+# ------------------------------------------------------------------ event sink
+class Sink(object):
+    """Events are streamed into chunk files for TLC (hundreds of thousands in the thorough tier); only the
+    exception texts are kept in memory.  get(id) reads an event back when TLC rejects it."""
+
+    def __init__(self, work, chunk=6000):
+        self.work, self.chunk = work, chunk
+        self.files, self.n, self.fh = [], 0, None
+        self.infos = {}
+
+    def add(self, ev, info):
+        if self.n % self.chunk == 0:
+            if self.fh:
+                self.fh.close()
+            p = os.path.join(self.work, 'trace_%d.ndjson' % (self.n // self.chunk))
+            self.files.append(p)
+            self.fh = open(p, 'w')
+        e = dict(ev)
+        e['id'] = self.n
+        self.fh.write(json.dumps(e) + '\n')
+        if info.get('exc'):
+            self.infos[self.n] = {'exc': info['exc']}
+        self.n += 1
+        return self.n - 1
+
+    def close(self):
+        if self.fh:
+            self.fh.close()
+            self.fh = None
+
+    def get(self, eid):
+        with open(self.files[eid // self.chunk]) as f:
+            for k, line in enumerate(f):
+                if k == eid % self.chunk:
+                    ev = json.loads(line)
+                    ev.pop('id', None)
+                    return ev, self.infos.get(eid, {})
+        raise MachineryError('event %d not found in its trace chunk' % eid)
+
+
 # ------------------------------------------------------------------ comparison with the TLC export
 def compare_export(ev, exp):
     """Clauses on which the observation differs from the exported expectation (shape, kind, exact values)."""
@@ -117,6 +157,11 @@ def compare_export(ev, exp):
             bad.append('shape')
     if ev['exact'] and ev.get('canonical') and ev['name'] in exp['vals'] and ev['vals'][0] != exp['vals'][ev['name']]:
         bad.append('exact-value')
+    # result dtype of the exact ufuncs as exported by the specification (all outputs of these have one dtype)
+    if ev['name'] in exp.get('dtypes', {}) and ev['case']['method'] != 'at':
+        want = exp['dtypes'][ev['name']][ev['dt']]
+        if ev['case']['outkind'] == 'none' and any(d != want for d in ev['rdtype']):
+            bad.append('dtype')
     return sorted(set(bad))
 
 
@@ -151,9 +196,13 @@ def run(ctx):
     env = {'UFUNC_TIER': tier, 'OUT_FILE': os.devnull, 'UFUNC_FIXED_NEGAXIS': FIXED_NEGAXIS,
            'UFUNC_FIXED_ZERODIM': FIXED_ZERODIM, 'UFUNC_FIXED_OUTERBOOL': FIXED_OUTERBOOL,
            'UFUNC_FIXED_POWER': FIXED_POWER}
+    env['UFUNC_KIND'] = 'all'
+    kinds = ('tensor', 'discr', 'power')
     jobs = [('props', 'MC_Ufunc.tla', 'MC_Ufunc_props.cfg', env, 6, 'ok'),
-            ('export', 'MC_Ufunc.tla', 'MC_Ufunc_export.cfg', dict(env, OUT_FILE=exp_path), 1, 'ok'),
             ('selftest-bogus', 'MC_Ufunc.tla', 'MC_Ufunc_bogus.cfg', env, 2, 'any')]
+    for k in kinds:          # export runs are single-worker (lines must not interleave): one per kind, in parallel
+        jobs.append(('export-' + k, 'MC_Ufunc.tla', 'MC_Ufunc_export.cfg',
+                     dict(env, OUT_FILE=exp_path + '.' + k, UFUNC_KIND=k), 1, 'ok'))
     for inv in ('TensorRefines', 'DiscrRefines', 'PowerRefines'):
         jobs.append(('impl-' + inv, 'MC_UfuncImpl.tla', 'MC_UfuncImpl_%s.cfg' % inv, env, 2, 'any'))
 
@@ -178,8 +227,10 @@ def run(ctx):
     timing['tlc_models'] = round(time.time() - t_sec, 1)
     t_sec = time.time()
 
-    with open(exp_path) as f:
-        cases = [json.loads(x) for x in f]
+    cases = []
+    for k in kinds:
+        with open(exp_path + '.' + k) as f:
+            cases += [json.loads(x) for x in f]
     if not cases:
         raise MachineryError('empty ufunc export')
     ufs = U.all_ufuncs()
@@ -189,7 +240,7 @@ def run(ctx):
     ctx.extra['numpy_ufuncs'] = {k: [u.__name__ for u in v] for k, v in by_cls.items() if k}
     exact_names = U.EXACT_BINARY | U.EXACT_UNARY
 
-    events = []
+    events = Sink(work)
     seen = {}
     applicable = set()        # (ufunc, dtype, kind, method, outkind) combinations actually executed
 
@@ -200,9 +251,9 @@ def run(ctx):
             return None
         ev['canonical'] = int(exact_inputs and not cplx)
         ev['inmode'] = [int(bool(exact_inputs)), int(bool(cplx))]
+        events.add(ev, info)
         if exp is not None:
-            info['expected'] = exp
-        events.append((ev, info))
+            info['expected'] = {'shape': exp['shape'], 'kind': exp['kind']}
         applicable.add((uf.__name__, dt, case['kind'], case['method'], case['outkind']))
         nontriv = not (case['method'] == 'call' and case['outkind'] == 'none' and case['order'] in ('e', 'ee')
                        and ev['ref_dtype'] == [dt])
@@ -214,8 +265,8 @@ def run(ctx):
 
     # ---- 2. replay of every exported configuration ----
     n_exact = 3 if quick else 99
-    n_other = 2 if quick else 6
-    n_dt = 2 if quick else 6
+    n_other = 2 if quick else 4
+    n_dt = 2 if quick else 3
     for ci, c in enumerate(cases):
         case, exp = c['case'], c['exp']
         pool = by_cls.get(case['ucls'], [])
@@ -284,7 +335,7 @@ def run(ctx):
                 for order in ('C', 'F'):
                     for variant in (0, 1):
                         ev = U.wrap_event(kind, shape, dt, order, variant)
-                        events.append((ev, {}))
+                        events.add(ev, {})
                         ctx.count(['wrap', kind, shape, dt, order, variant], True)
     from odl.util.ufuncs import RAW_UFUNCS
     for kind in ('tensor', 'discr', 'power'):
@@ -297,18 +348,18 @@ def run(ctx):
                         ev, info = U.legacy_event(kind, [2, 3], dt, name, form, 0)
                     except Exception as e:
                         raise MachineryError('legacy driver failed for %s %s %s: %r' % (kind, dt, name, e))
-                    events.append((ev, info))
+                    events.add(ev, info)
                     ctx.count(['legacy', kind, dt, name, form], True)
             for name in ('sum', 'prod', 'min', 'max'):
                 ev, info = U.legacy_event(kind, [2, 3], dt, name, 'reduce', 0)
-                events.append((ev, info))
+                events.add(ev, info)
                 ctx.count(['legacy', kind, dt, name, 'reduce'], True)
     timing['wrap_legacy'] = round(time.time() - t_sec, 1)
     t_sec = time.time()
 
     # ---- 5. random driver: concretisation only (ufunc, dtype, variant, complex operands) ----
     rnd = random.Random(ctx.seed * 7919 + 17)
-    nrand = 3000 if quick else 40000
+    nrand = 2500 if quick else 20000
     done = 0
     tries = 0
     while done < nrand and tries < nrand * 5:
@@ -325,19 +376,11 @@ def run(ctx):
             done += 1
     timing['random_driver'] = round(time.time() - t_sec, 1)
     t_sec = time.time()
-    ctx.traces += len(events)
+    events.close()
+    ctx.traces += events.n
 
     # ---- 6. TLC trace validation ----
-    chunk = 6000
-    files = []
-    for ci in range(0, len(events), chunk):
-        p = os.path.join(work, 'trace_%d.ndjson' % (ci // chunk))
-        with open(p, 'w') as f:
-            for k, (ev, info) in enumerate(events[ci:ci + chunk]):
-                e = dict(ev)
-                e['id'] = ci + k
-                f.write(json.dumps(e) + '\n')
-        files.append(p)
+    files = events.files
 
     def val(p):
         return p, run_tlc('Trace_Ufunc.tla', 'Trace_Ufunc.cfg', work, env={'TRACE_FILE': p}, workers=1, timeout=3000)
@@ -349,11 +392,11 @@ def run(ctx):
         ctx.add_tlc('trace-' + os.path.basename(p), res)
         spec = re.findall(r'<<\s*"SPEC"\s*,\s*(\d+)\s*,\s*(\d+)\s*,', res.output)
         if spec:
-            ev, info = events[int(spec[0][1])]
+            ev, info = events.get(int(spec[0][1]))
             raise MachineryError('NumPy reference contradicts the shape / dtype rule of the specification: %s' % dumps(
                 {k: ev[k] for k in ('case', 'name', 'dt', 'dtk', 'ref_shape', 'ref_dtype')}))
         for _line, eid, clauses_text in parse_fails(res.output):
-            ev, info = events[eid]
+            ev, info = events.get(eid)
             nfail += 1
             clauses = re.findall(r'"([\w-]+)"', clauses_text)
             if not clauses:
@@ -368,7 +411,7 @@ def run(ctx):
     ctx.extra['ufuncs_executed'] = len(per_uf)
     ctx.extra['ufunc_dtype_kind_method_outkind_combinations'] = len(applicable)
     ctx.extra['ufuncs_never_applicable'] = sorted(u.__name__ for u in ufs if u.__name__ not in per_uf)
-    ctx.extra['trace_events_validated_by_tlc'] = len(events)
+    ctx.extra['trace_events_validated_by_tlc'] = events.n
     ctx.extra['trace_events_rejected_by_tlc'] = nfail
     fams = [json.loads(k) for k in seen]
     checks = ((FIXED_NEGAXIS, any(f.get('kind') == 'discr' and f.get('method') == 'reduce' and
